@@ -8,6 +8,7 @@ mod util;
 mod c18;
 mod addr;
 mod c17;
+mod c06;
 
 pub struct Out {
     pub result: String,
@@ -28,6 +29,7 @@ fn eval(case: &str) -> Out {
     let r = std::panic::catch_unwind(|| match kind {
         "C18" => c18::eval(case),
         "C17" => c17::eval(case),
+        "C06" => c06::eval(case),
         _ => Out::ok(format!("harnesserr unknown kind {}", kind)),
     });
     match r {
@@ -40,6 +42,7 @@ fn gen(prop: &str, rng: &mut ChaCha20Rng, n: usize, thorough: bool) -> Vec<Case>
     match prop {
         "C18" => c18::gen(rng, n, thorough),
         "C17" => c17::gen(rng, n, thorough),
+        "C06" => c06::gen(rng, n, thorough),
         _ => panic!("unknown property {}", prop),
     }
 }
